@@ -342,7 +342,7 @@ class _XSLibrary:
     def _mergeNeutronEnergies(self, other):
         self.neutronEnergyUpperBounds = other.neutronEnergyUpperBounds
         # neutron velocity changes, but just use the first one.
-        if not hasattr(self, "_neutronVelocity"):
+        if getattr(self, "_neutronVelocity", None) is None:
             self.neutronVelocity = other.neutronVelocity
 
     def items(self):
